@@ -40,51 +40,53 @@ def build_world(mod, sermod, server):
         class R1:
             @deco
             def on_a(self, client, seqnum, msg: MsgA):
-                log.append(('R1.on_a', client, seqnum, msg))
+                log.append(('R1.on_a', client, seqnum, msg, self))
 
             @deco
             def on_b(self, client, seqnum, msg: MsgB):
-                log.append(('R1.on_b', client, seqnum, msg))
+                log.append(('R1.on_b', client, seqnum, msg, self))
 
         class R2:
             @deco
             def on_c(self, client, seqnum, msg: "MsgC"):
-                log.append(('R2.on_c', client, seqnum, msg))
+                log.append(('R2.on_c', client, seqnum, msg, self))
 
         class R3:
             @deco
             def on_a(self, client, seqnum, msg: "MsgA"):
-                log.append(('R3.on_a', client, seqnum, msg))
+                log.append(('R3.on_a', client, seqnum, msg, self))
     else:
         class R1:
             @deco
             def on_a(self, seqnum, msg: MsgA):
-                log.append(('R1.on_a', None, seqnum, msg))
+                log.append(('R1.on_a', None, seqnum, msg, self))
 
             @deco
             def on_b(self, seqnum, msg: MsgB):
-                log.append(('R1.on_b', None, seqnum, msg))
+                log.append(('R1.on_b', None, seqnum, msg, self))
 
         class R2:
             @deco
             def on_c(self, seqnum, msg: "MsgC"):
-                log.append(('R2.on_c', None, seqnum, msg))
+                log.append(('R2.on_c', None, seqnum, msg, self))
 
         class R3:
             @deco
             def on_a(self, seqnum, msg: "MsgA"):
-                log.append(('R3.on_a', None, seqnum, msg))
+                log.append(('R3.on_a', None, seqnum, msg, self))
     D = mod.ServerMessageDispatcher if server else mod.ClientMessageDispatcher
-    handles = {'R1': {'MsgA': 'R1.on_a', 'MsgB': 'R1.on_b'}, 'R2': {'MsgC': 'R2.on_c'}, 'R3': {'MsgA': 'R3.on_a'}}
-    return D(), {'R1': R1(), 'R2': R2(), 'R3': R3()}, {'MsgA': MsgA, 'MsgB': MsgB, 'MsgC': MsgC}, handles, log
+    # R1b is a second instance of R1's class: same functions, another owner
+    handles = {'R1': {'MsgA': 'R1.on_a', 'MsgB': 'R1.on_b'}, 'R2': {'MsgC': 'R2.on_c'}, 'R3': {'MsgA': 'R3.on_a'},
+               'R1b': {'MsgA': 'R1.on_a', 'MsgB': 'R1.on_b'}}
+    return D(), {'R1': R1(), 'R2': R2(), 'R3': R3(), 'R1b': R1()}, {'MsgA': MsgA, 'MsgB': MsgB, 'MsgC': MsgC}, handles, log
 
 
-OPS = ['reg R1', 'reg R2', 'reg R3', 'unreg R1', 'unreg R2', 'unreg R3', 'disp MsgA', 'disp MsgB', 'disp MsgC']
+OPS = ['reg R1', 'reg R2', 'reg R3', 'unreg R1', 'unreg R2', 'unreg R3', 'disp MsgA', 'disp MsgB', 'disp MsgC', 'reg R1b', 'unreg R1b']
 
 
 def run_ops(mod, sermod, server, ops, chk, dispatch_error):
     d, res, msgs, handles, log = build_world(mod, sermod, server)
-    ref = {}          # class name -> handler label  (the reference model)
+    ref = {}          # class name -> (handler label, owning resource)  (the reference model)
     for step, op in enumerate(ops):
         kind, arg = op.split()
         if kind == 'reg':
@@ -96,7 +98,7 @@ def run_ops(mod, sermod, server, ops, chk, dispatch_error):
                 raised = True
             chk(raised == conflict, 'registering a second handler for a class is refused (and only then)', step, op)
             if not conflict:
-                ref.update(handles[arg])
+                ref.update({c: (label, arg) for c, label in handles[arg].items()})
         elif kind == 'unreg':
             try:
                 d.unregister(res[arg])
@@ -105,7 +107,7 @@ def run_ops(mod, sermod, server, ops, chk, dispatch_error):
                 raised = True
             chk(not raised, 'unregister(resource) does not raise', step, op)
             for c, label in handles[arg].items():
-                if ref.get(c) == label:
+                if ref.get(c) == (label, arg):          # only what this very resource object registered
                     del ref[c]
         else:
             msg = msgs[arg](v=step)
@@ -126,7 +128,8 @@ def run_ops(mod, sermod, server, ops, chk, dispatch_error):
                 chk(err is None, 'dispatch to a registered class does not raise', step, op)
                 chk(len(calls) == 1, 'exactly one handler is invoked', step, op)
                 if len(calls) == 1:
-                    chk(calls[0][0] == ref[arg], 'the handler registered for the class is the one invoked', step, op)
+                    chk(calls[0][0] == ref[arg][0] and calls[0][4] is res[ref[arg][1]],
+                        'the handler registered for the class is the one invoked (on the resource object that registered it)', step, op)
                     chk(calls[0][3] is msg and calls[0][2] is seq and (not server or calls[0][1] is client),
                         'arguments are passed through unchanged', step, op)
             else:
@@ -168,11 +171,11 @@ def replay_l201(cfg, m):
 
 R.add('L20.1', l201, lambda tier: [dict(server=s, nops=(4 if tier == 'quick' else 5)) for s in (True, False)],
       replay=replay_l201,
-      desc='every sequence of <= 4 (thorough 5) register/unregister/dispatch operations over 3 resources (class and string '
-           'annotations, one conflicting) and 3 message classes, both dispatchers, against a reference map',
+      desc='every sequence of <= 4 (thorough 5) register/unregister/dispatch operations over 4 resource objects (class and string '
+           'annotations, one conflicting class, two instances of one class) and 3 message classes, both dispatchers, against a reference map',
       expect=['sequence explored', 'exactly one handler is invoked', 'unknown class raises DispatchError',
               'registering a second handler for a class is refused (and only then)'],
-      bounds='<= 4 (thorough 5) operations from the empty dispatcher; alphabet of 9 operations')
+      bounds='<= 4 (thorough 5) operations from the empty dispatcher; alphabet of 11 operations')
 
 
 def l202(server):
